@@ -174,7 +174,8 @@ var ipv6Chains = [][]uint8{
 	{}, {Type_HBH}, {Type_Routing}, {Type_Fragment},
 	{Type_HBH, Type_Routing}, {Type_HBH, Type_Fragment}, {Type_Routing, Type_Fragment},
 	{Type_HBH, Type_Routing, Type_Fragment},
-	{Type_Routing, Type_HBH}, {Type_Fragment, Type_HBH}, {Type_Fragment, Type_Routing},
+	{Type_Fragment, Type_Routing}, {Type_Routing, Type_HBH}, // the quick tier takes the first ten
+	{Type_Fragment, Type_HBH},
 	{Type_Routing, Type_HBH, Type_Fragment}, {Type_Fragment, Type_Routing, Type_HBH},
 	{Type_Routing, Type_Fragment, Type_HBH}, {Type_HBH, Type_Fragment, Type_Routing}, {Type_Fragment, Type_HBH, Type_Routing},
 }
